@@ -53,7 +53,7 @@ def score_value(f):
     return SCORE[f["score"]]
 
 
-def make_feedback(report, f, i, style=0):
+def make_feedback(report, f, i, style=0, parent=None):
     from pedal.core.feedback import Feedback
     kw = dict(label=f["label"], category=None if f["cat"] == "none" else f["cat"], priority=None if f["prio"] == "none" else f["prio"],
               kind=f["kind"], muted=f["muted"], unscored=f["unscored"], correct=COR[f["correct"]],
@@ -61,6 +61,8 @@ def make_feedback(report, f, i, style=0):
               message="" if f.get("msg") == "empty" else "m%d" % i)   # the empty string is a message too
     if f["els"]:
         kw["else_message"] = "e%d" % i
+    if parent is not None:
+        kw["parent"] = parent
     fields = dict(FM[f["flds"]])
     if style % 2 == 0:
         return Feedback(fields=fields, activate=f["trig"], report=report, **kw)
@@ -105,6 +107,45 @@ def observe(report, objs, which="simple"):
     except Exception as e:  # resolving must never raise (C01)
         return {"shown": -9, "correct": False, "score": 0, "error": "%s: %s" % (type(e).__name__, e)}
     return project(final, objs)
+
+
+def grouped_chunk(cases, extra):
+    """Sectional resolver with INTERLEAVED groups.  cases: (index, record, partner record with the same suppressions).
+    The feedback objects of the two exported reports are created alternately, each report under its own parent; every
+    group must resolve exactly like its report resolved on its own (the specification's exported answer)."""
+    from engine.core import setup_repo_path
+    setup_repo_path()
+    from pedal.core.report import Report
+    from pedal.resolvers import sectional
+    out = []
+    for idx, rec, other in cases:
+        report = Report()
+        for s_ in rec["supp"]:
+            apply_supp(report, s_)
+        members = {"secA": [], "secB": []}
+        plan = []
+        for i in range(max(len(rec["fbs"]), len(other["fbs"]))):
+            if i < len(rec["fbs"]):
+                plan.append(("secA", rec["fbs"][i]))
+            if i < len(other["fbs"]):
+                plan.append(("secB", other["fbs"][i]))
+        for n, (g, f) in enumerate(plan, 1):
+            members[g].append(make_feedback(report, f, n, style=idx + n, parent=g))
+        try:
+            finals = sectional.resolve(report=report)
+        except Exception as e:
+            out.append({"case": rec, "partner": other, "resolver": "sectional-groups", "fields": ["shown"], "style": idx % 2, "expected": rec["exp"],
+                        "observed": {"error": "%s: %s" % (type(e).__name__, e), "shown": -9, "correct": False, "score": 0}})
+            continue
+        for g, r in (("secA", rec), ("secB", other)):
+            final = finals.get(g)
+            # a group none of whose feedback was triggered does not appear at all
+            obs = {"shown": 0, "correct": True, "score": 100} if final is None else project(final, members[g])
+            bad = [k for k in ("shown", "correct") if obs[k] != r["exp"][k]]
+            if bad:
+                out.append({"case": r, "partner": other if r is rec else rec, "resolver": "sectional-groups", "group": g, "observed": obs,
+                            "expected": r["exp"], "fields": bad, "style": idx % 2})
+    return out
 
 
 def replay_chunk(cases, extra):
